@@ -545,6 +545,12 @@ func Verify(P *Program, blk *Block, opt Options) (res *Result) {
 		// free variables are pointers to the captured variable cells
 		vc.params["&"+fv.Name()] = v
 		vc.paramTy["&"+fv.Name()] = fv.Type()
+		// the captured variable itself, by its source name (value at entry)
+		if pt, ok := fv.Type().Underlying().(*types.Pointer); ok {
+			vc.assume(st, not(eq(v.S, "0")))
+			vc.params[fv.Name()] = vc.loadAt(st, v, pt.Elem())
+			vc.paramTy[fv.Name()] = pt.Elem()
+		}
 	}
 	ctx := &Ctx{blk: blk, env: map[string]T{}, envTy: map[string]types.Type{}, name: blk.Name}
 	st.ctx = ctx
